@@ -96,11 +96,13 @@ class HarnessError(Exception):
 
 
 class ThreadSched:
-    def __init__(self, fns, choices, shared, timeout=30.0):
+    def __init__(self, fns, choices, shared, timeout=30.0, fine=()):
         self.fns = fns
         self.n = len(fns)
         self.choices = list(choices)
-        self.shared = [s if s.endswith("/") else s + "/" for s in shared]
+        # `fine`: private directories whose events are scheduling points as well (they commute on the
+        # file system, but give preemption opportunities inside phases that only touch memory)
+        self.shared = [s if s.endswith("/") else s + "/" for s in list(shared) + list(fine)]
         self.sem = [threading.Semaphore(0) for _ in fns]
         self.ctl = threading.Semaphore(0)
         self.state = ["new"] * self.n
